@@ -1442,6 +1442,13 @@ func checkDialTable(r *Run, rc *RuleCtx, dial *ssa.Function, uc *uriConsts, sche
 						outcomes["unsupported"] = true
 					}
 				}
+				if idx == 1 && len(ret.Results) == 2 && isNilConst(v) && isNilConst(c.Resolve(deref(c.Resolve(ret.Results[0])))) {
+					outcomes["returns neither a client nor an error"] = true
+					if badSite == nil {
+						badSite = ret
+					}
+					return
+				}
 				// other error returns (dial/net failures) are not outcomes of the table - but they are taken only
 				// when a step has failed: an error return on a path on which every step's error is nil (a test
 				// the wrong way round) makes DialURI fail for a URI it has just dialled
